@@ -21,7 +21,8 @@ As the code is now:
   (`file_live_refines_ref`). Across reopen the full statement is **false** (kernel-checked negation
   `file_store_refines_ref_fails`, F19b: a re-written index is appended to `log.data`, the offset index then no longer
   follows file order, a later truncate cuts at the wrong place — the truncated entry is back after reopen); the purge
-  boundary is never reported (`file_purge_boundary_witness`, F26); `replace_range` (`replace_range_atomic_fails`, F19c)
+  boundary follows the reference for every op sequence (`file_boundary_refines_ref`; F26 fixed in /repo aab5543);
+  `replace_range` (`replace_range_atomic_fails`, F19c)
   and `purge` (`purge_crash_safe_fails`, F18) are not crash-atomic. Partial theorems with the excluded trigger exact:
   under the *append-only discipline* (`appendOnly`: the contract plus "`persist_entries` only appends beyond the current
   end; re-writing goes through `replace_range`") the File store is in lock-step with `Ref` for every op sequence incl.
@@ -49,7 +50,7 @@ structure View where
 deriving DecidableEq, Repr
 
 def refView (r : Ref) : View := ⟨r.m, maxKey r.m, r.boundary⟩
-def fileView (s : FileStore) : View := ⟨s.entries, s.last, none⟩      -- `load_purge_boundary`: trait default `None`
+def fileView (s : FileStore) : View := ⟨s.entries, s.last, s.boundary⟩
 def rocksView (s : RocksStore) : View := ⟨s.db, s.last, s.boundary⟩
 
 /-! ## Full statements and their negations -/
@@ -84,13 +85,10 @@ theorem file_store_refines_ref_fails : ¬ FileStoreRefinesRefStatement := by
   have := h w19b (by decide)
   revert this; decide
 
-/-- F26 witness (File): the purge boundary is not reported — even under the append-only discipline. -/
-def w26 : List Op := [.persist [⟨1, 1, 1⟩, ⟨2, 1, 1⟩], .purge 1 1]
+/-- F26 regression (fixed in /repo aab5543): the File store now reports the purge boundary, live and after reopen. -/
+def w26 : List Op := [.persist [⟨1, 1, 1⟩, ⟨2, 1, 1⟩], .purge 1 1, .reopen]
 
-theorem file_purge_boundary_witness :
-    conforms appendOnly Ref.empty w26 = true ∧
-    (fileView (runFile FileStore.empty w26)).boundary = none ∧
-    (refView (runRef Ref.empty w26)).boundary = some (1, 1) := by decide
+example : (fileView (runFile FileStore.empty w26)).boundary = some (1, 1) := by decide
 
 /-! ## Refinement -/
 
@@ -140,6 +138,17 @@ theorem file_live_run : ∀ (ops : List Op) (s : FileStore) (r : Ref), LInv s r 
     simp only [noReload, Bool.and_eq_true, decide_eq_true_eq] at hn
     exact file_live_run rest _ _ (file_live_step h hc.1 ⟨hn.1.1, hn.1.2⟩) hc.2 hn.2
 
+theorem file_boundary_run : ∀ (ops : List Op) (s : FileStore) (r : Ref), s.boundary = r.boundary →
+    (runFile s ops).boundary = (runRef r ops).boundary
+  | [], _, _, h => h
+  | op :: rest, s, r, h => file_boundary_run rest _ _ (file_boundary_step s r op h)
+
+/-- **The File store's purge boundary equals the reference's for every op sequence whatsoever** (no contract needed;
+    reopen and process crash included; before /repo aab5543 it was never stored — F26). -/
+theorem file_boundary_refines_ref (ops : List Op) :
+    (runFile FileStore.empty ops).boundary = (runRef Ref.empty ops).boundary :=
+  file_boundary_run ops _ _ rfl
+
 /-- **A running File store refines the reference store under the whole contract** (re-written and lower indexes
     included): entries, every lookup and `last_index`. (What a *reopened* store shows is F19b's subject.) -/
 theorem file_live_refines_ref (ops : List Op) (hc : conforms contract Ref.empty ops = true)
@@ -151,7 +160,7 @@ theorem file_live_refines_ref (ops : List Op) (hc : conforms contract Ref.empty 
   exact ⟨h.entries, h.last⟩
 
 /-- **File store refines the reference store** (excluded trigger: a `persist_entries` that re-writes or goes below the
-    current end — F19b; the purge boundary is excluded from the view — F26): for every append-only op sequence —
+    current end — F19b; the purge boundary is covered separately and unconditionally by `file_boundary_refines_ref`): for every append-only op sequence —
     reopen and process crash are ops of the sequence — entries, every lookup and `last_index` agree with `Ref`, the
     records on disk are exactly the map in key order, and reopening now would again agree. -/
 theorem file_store_refines_ref_partial (ops : List Op) (hc : conforms appendOnly Ref.empty ops = true) :
